@@ -13,6 +13,11 @@ CLAUSE = ("(RF-DOM) in vbi3_raw_decoder_decode every call of decode_pattern - th
           "sample_offset and a data length that depends on payload_bits AND frc_bits, sampling_rate and payload_rate, and the "
           "'does not fit' test on the same quantities dominates the TRUE return; the same for cri_bytes of the legacy "
           "vbi_bit_slicer_init; service admission is behind _vbi_sampling_par_valid_log.")
+CLAUSE_EXTRA = (" (RF-WIDTH) every product with the sampling rate that feeds a search limit or bit step is computed in a 64 bit "
+                "type; (RF-REGION) abstract interpretation of _vbi_sampling_par_valid_log over input regions: with interlaced "
+                "data and field line counts that differ (or are both zero), and with zero bytes per line, the function cannot "
+                "return TRUE (the decoder steps through both fields at twice the line pitch, so unequal counts read past the image).")
+CLAUSE = CLAUSE + CLAUSE_EXTRA
 NOT_DECIDED = ("whether the search limit is arithmetically sufficient (8.8 fixed-point phase/step arithmetic, the low-pass slicer's "
                "16-sample window, reads of r + bpp at the last payload bit): a relational numeric fact, outside static analysis "
                "without a solver; reads of the image as such (values).")
@@ -29,6 +34,8 @@ def run(ctx, run):
     _init(ctx, run)
     _provenance(ctx, run, P.need("vbi3_bit_slicer_set_params", BS))
     _legacy(ctx, run, P.need("vbi_bit_slicer_init", DEC))
+    _wide_products(ctx, run)
+    _validity_regions(ctx, run)
     _admission(ctx, run)
 
 
@@ -404,3 +411,80 @@ def _admission(ctx, run):
         else:
             run.violation("RF-DOM", key, "%s no longer validates the sampling parameters" % name, "%s:%d" % (f.file, f.line))
     run.floor("validated admission functions", n, 2)
+
+
+def _wide_products(ctx, run):
+    """sampling_rate * bits overflows 32 bit for every Teletext-length payload: the products that
+    feed cri_samples / data_samples / step / cri_bytes must be carried out in 64 bit."""
+    P = ctx.prog
+    n = 0
+    for fname, unit, rate_pos in (("vbi3_bit_slicer_set_params", BS, 2), ("vbi_bit_slicer_init", DEC, 2)):
+        f = P.need(fname, unit)
+        run.touch(f)
+        rate = f.params[rate_pos]["name"]
+        d = _deps(f)
+        limit = "field:cri_samples" if unit == BS else "field:cri_bytes"
+        feeds = _closure(d, [limit]) | {limit}
+        # the target of the statement each product sits in
+        target = {}
+        for bid, ev in flow.all_events(f):
+            for lhs, var, op, rhs in flow.stores(f, ev):
+                nm = var["name"] if var is not None else None
+                if lhs is not None:
+                    l = f.exprs[ex.skip(f, lhs)]
+                    nm = l["name"] if l["k"] == "ref" else ("field:%s" % l["member"] if l["k"] == "mem" else nm)
+                if rhs is not None and nm is not None:
+                    for n2 in ex.walk(f, rhs):
+                        target.setdefault(n2, nm)
+        for i, e in enumerate(f.exprs):
+            if e["k"] != "bin" or e["op"] != "*" or "it" not in e:
+                continue
+            if target.get(i) not in feeds:
+                continue            # does not feed the CRI search limit
+            ops = [atoms.Operand(f, c) for c in e["c"]]
+            if not any(rate in o.locals for o in ops):
+                continue
+            other = [o for o in ops if rate not in o.locals]
+            if other and other[0].const is not None and other[0].const <= 16 and not other[0].locals:
+                continue            # sampling_rate * OVERSAMPLING and the like: a small constant factor
+            n += 1
+            key = "RF-WIDTH:%s:%s" % (fname, "+".join(sorted(other[0].locals)) if other else "?")
+            if e["it"][0] >= 64:
+                run.holds("RF-WIDTH", key, "`%s` is computed in a %d bit type" % (ex.pretty(f, i)[:60], e["it"][0]), ex.loc(f, i))
+            else:
+                run.violation("RF-WIDTH", key, "`%s` is a %d bit product of the sampling rate and a bit count: it wraps for Teletext "
+                              "length payloads (13.5 MHz x 360 bit > 2^31), the CRI search limit derived from it becomes almost the "
+                              "whole line and the payload is sampled past its end" % (ex.pretty(f, i)[:70], e["it"][0]), ex.loc(f, i),
+                              witness={"function": fname, "bits": e["it"][0]})
+    run.floor("products of the sampling rate feeding a search limit", n, 2)
+
+
+REJECT_REGIONS = [
+    ("interlaced, first field longer", {"sp->interlaced": (1, 1 << 30), "sp->count[0]": (2, 1 << 20), "sp->count[1]": (0, 1)}),
+    ("interlaced, second field longer", {"sp->interlaced": (1, 1 << 30), "sp->count[0]": (0, 1), "sp->count[1]": (2, 1 << 20)}),
+    ("interlaced, counts differ by one", {"sp->interlaced": (1, 1 << 30), "sp->count[0]": (7, 7), "sp->count[1]": (6, 6)}),
+    ("no lines at all", {"sp->count[0]": (0, 0), "sp->count[1]": (0, 0)}),
+    ("zero bytes per line", {"sp->bytes_per_line": (0, 0)}),
+]
+ACCEPT_REGION = ("interlaced, equal non-zero counts", {"sp->interlaced": (1, 1), "sp->count[0]": (5, 5), "sp->count[1]": (5, 5)})
+
+
+def _validity_regions(ctx, run):
+    from .. import ivl
+    f = ctx.prog.need("_vbi_sampling_par_valid_log", "src/sampling_par.c")
+    run.touch(f)
+    hits, miss = ivl.returns_reachable(ctx, f, ACCEPT_REGION[1])
+    if miss or not hits:
+        raise AnalysisBroken("_vbi_sampling_par_valid_log: positive control region '%s' does not reach TRUE (unmatched paths %s)"
+                             % (ACCEPT_REGION[0], miss))
+    for name, reg in REJECT_REGIONS:
+        hits, miss = ivl.returns_reachable(ctx, f, reg)
+        if miss:
+            raise AnalysisBroken("_vbi_sampling_par_valid_log: region '%s' names fields the function no longer reads: %s" % (name, miss))
+        key = "RF-REGION:_vbi_sampling_par_valid_log:%s" % name
+        if hits:
+            run.violation("RF-REGION", key, "sampling parameters in the region '%s' (%s) can be accepted (return at %s): the raw "
+                          "decoder then walks field lines the image does not have" % (name, reg, ex.loc(f, hits[0])), ex.loc(f, hits[0]),
+                          witness={"region": {k: list(v) for k, v in reg.items()}})
+        else:
+            run.holds("RF-REGION", key, "no TRUE return is reachable for any input in the region %s" % reg, "%s:%d" % (f.file, f.line))
